@@ -42,14 +42,14 @@ def run_case(case):
     if "py_headers" in case:
         script["headers"] = case["py_headers"]
         script["status"] = case["py_status"]
-    for k in ("sr_twice", "mutate_after", "swallow", "mutate_inner"):
+    for k in ("sr_twice", "mutate_after", "swallow", "mutate_inner", "file_offset"):
         if k in case:
             script[k] = case[k]
     adj = {"expose_tracebacks": case["cfg"]["expose"], "log_socket_errors": case["cfg"]["log_socket_errors"]}
     if case.get("disc_mode") == "eof_seen":
         adj["channel_request_lookahead"] = 1
     obs = appscript.exchange(script, case["req"], adj=adj, disconnect_at=(case["disc"] if case["disc"] >= 0 else None),
-                             disc_mode=case.get("disc_mode", "epipe"))
+                             disc_mode=case.get("disc_mode", "epipe"), room=case.get("room"), take=case.get("take", 0))
     # head split into lines for the string model
     head = bytes(obs["head_raw"])
     lines = head[:-4].split(b"\r\n") if head.endswith(b"\r\n\r\n") else []
@@ -66,7 +66,7 @@ def run_case(case):
             except UnicodeEncodeError:
                 pass
     obs["app_strings_on_wire"] = on_wire
-    ev = {k: v for k, v in case.items() if k not in ("py_headers", "py_status", "sr_twice", "mutate_after", "mutate_inner", "offending")}
+    ev = {k: v for k, v in case.items() if k not in ("py_headers", "py_status", "sr_twice", "mutate_after", "mutate_inner", "offending", "file_offset", "room", "take")}
     ev["swallow"] = bool(case.get("swallow"))
     ev["obs"] = obs
     return ev
